@@ -245,16 +245,19 @@ def forms(cf, cv, P, n):
 
 
 def aff(R):
-    """affine tuple (reduced modulo p) of a library point, or None for infinity"""
+    """affine coordinates of a library point AS THE LIBRARY RETURNS THEM (no reduction here: a result's coordinates are field
+    elements in [0, p) - an unreduced or negative value cannot be encoded or loaded as a key), or None for infinity"""
     if R is E.INFINITY or R == E.INFINITY:
         return None
-    p = int(R.curve().p())
     if isinstance(R, E.PointJacobi):
         a = R.to_affine()
         if a is E.INFINITY:
             return None
-        return (int(a.x()) % p, int(a.y()) % p)
-    return (int(R.x()) % p, int(R.y()) % p)
+        xy = (int(a.x()), int(a.y()))
+        if xy != (int(R.x()), int(R.y())):
+            return ("x()/y() disagree with to_affine()", (int(R.x()), int(R.y())), xy)
+        return xy
+    return (int(R.x()), int(R.y()))
 
 
 def run_case(ctx, case):
@@ -354,7 +357,9 @@ def run_case(ctx, case):
         if kind == "muladd":
             if P is None:
                 return Outcome("infinity-has-no-representation", False)
-            ks = [0, 1, 2, n - 1, n, n + 1]
+            # every scalar pair on the smallest groups; on the larger ones the edge scalars plus those whose signed-digit form ends
+            # in -1 while the running sum passes through infinity (3, 7, 8 against (n-1)/2 multiples)
+            ks = list(range(n + 2)) if n <= 13 else [0, 1, 2, 3, 7, 8, (n - 1) // 2, (n + 1) // 2, n - 2, n - 1, n, n + 1]
             for Q in pts:
                 for k1 in ks:
                     for k2 in ks:
@@ -447,6 +452,18 @@ def run_case(ctx, case):
                 return o.viol("std|kP-affine|%s" % cur.name, "%s: affine %d * P wrong" % (cur.name, k))
         if aff(G.mul_add(k, A, 3)) != cv.add(exp, cv.mul(3, P7)):
             return o.viol("std|mul_add|%s" % cur.name, "%s: mul_add(%d, P, 3) wrong" % (cur.name, k))
+        if case[2] == 0:
+            # multiply-add whose running sum passes through infinity right before a final negative signed digit
+            G1 = E.PointJacobi(cf, cv.g[0], cv.g[1], 1, n)
+            for a_, Qk, b_ in ((3, (n - 1) // 2, 8), (8, n - 2, 3), (7, (n - 1) // 2, 16), (3, n - 1, 4), (1, n - 1, 1), (n - 1, 1, 1)):
+                Qp = cv.mul(Qk, cv.g)
+                for zq in (1, 3):
+                    Qj = E.PointJacobi(cf, Qp[0] * zq * zq % cv.p, Qp[1] * zq ** 3 % cv.p, zq, n)
+                    want = cv.add(cv.mul(a_, cv.g), cv.mul(b_, Qp))
+                    got2 = aff(G1.mul_add(a_, Qj, b_))
+                    if got2 != want:
+                        o.cls = "differs"
+                        return o.viol("std|mul_add-cancel|%s" % cur.name, "%s: G.mul_add(%d, %d*G, %d) = %r, expected %r" % (cur.name, a_, Qk, b_, got2, want))
         # table-carrying points whose internal Z is not 1 when the table is built
         T7 = E.PointJacobi(cf, P7[0] * 9 % cv.p, P7[1] * 27 % cv.p, 3, n, generator=True)
         if aff(T7 * k) != cv.mul(k, P7):
